@@ -419,6 +419,45 @@ class Interp:
             self.list_case(e if k == "sym" else e.src)
             self.normalize_list(lst)
 
+    def cond_lean(self, v):
+        """a truth value as a python bool or the text of a decidable Lean proposition"""
+        if v is None or isinstance(v, (bool, int, str)):
+            return bool(v)
+        if isinstance(v, SStr):
+            if any(k == "lit" for k, _ in v.parts):
+                return True
+            if not v.parts:
+                return False
+            return "(%s ≠ [])" % v.lean()
+        if isinstance(v, SBool):
+            return "(%s = true)" % v.lean()
+        if isinstance(v, tuple) and v and v[0] == "notcond":
+            return v[1]
+        raise Untranslatable("condition %r" % (v,))
+
+    def list_back_case(self, name):
+        """symbolic list variable seen from its end: None if empty on this path, else (last Obj, lean of the rest)"""
+        if ("list", name) in self.known and self.known[("list", name)] is None:
+            return None
+        key = ("listback", name)
+        if key not in self.known:
+            y = self.fresh("y")
+            c = self.o.choose(("listback", name, y), 2)
+            self.known[key] = None if c == 1 else (Obj(None, lean=y, lay="%s.lay" % y), "(%s).dropLast" % name)
+        return self.known[key]
+
+    def last_lazy(self, lst):
+        """make the last element of `lst` concrete if the list ends with a lazy segment"""
+        self.normalize_list(lst)
+        guard = 0
+        while lst.segs and lst.segs[-1][0] in ("sym", "lmap"):
+            k, e = lst.segs[-1]
+            self.list_back_case(e if k == "sym" else e.src)
+            self.normalize_list(lst)
+            guard += 1
+            if guard > 1000:
+                raise Untranslatable("back indexing does not terminate")
+
     def list_case(self, name):
         """symbolic list variable: None if empty on this path, else (head Obj, tail name)"""
         key = ("list", name)
@@ -439,6 +478,22 @@ class Interp:
                     if kc is not None:
                         segs.append(("elem", kc[0]))
                         segs.append(("sym", kc[1]))
+                    changed = True
+                elif k == "sym" and ("listback", e) in self.known:
+                    kc = self.known[("listback", e)]
+                    if kc is not None:
+                        segs.append(("sym", kc[1]))
+                        segs.append(("elem", kc[0]))
+                    changed = True
+                elif k == "lmap" and ("list", e.src) not in self.known and ("listback", e.src) in self.known:
+                    kc = self.known[("listback", e.src)]
+                    if kc is not None:
+                        if ("lmaplast", id(e)) not in self.known:
+                            self.known[("lmaplast", id(e))] = (LMap(kc[1], e.stages), e.build(self, kc[0]))
+                        init, last = self.known[("lmaplast", id(e))]
+                        init.stages = e.stages
+                        segs.append(("lmap", init))
+                        segs.append(("elem", last))
                     changed = True
                 elif k == "lmap" and ("list", e.src) in self.known:
                     kc = self.known[("list", e.src)]
@@ -564,6 +619,16 @@ class Interp:
             return ListObj([("elem", self.wrap(x)) for x in val])
         if isinstance(val, float):
             raise Untranslatable("float")
+        if type(val).__module__ == "luqum.tree" and type(val).__name__ in CLASS_TABLE and \
+                type(val).__name__ != "NoneItem" and hasattr(val, "__dict__"):
+            # a concrete item held by the library itself (e.g. `OpenRangeTransformer.WILDCARD_WORD`): one heap object
+            # with the attributes it really has
+            if id(val) not in self.singletons:
+                o = Obj(type(val))
+                self.singletons[id(val)] = o
+                for k, v in vars(val).items():
+                    o.attrs[k] = self.wrap(v)
+            return self.singletons[id(val)]
         if type(val).__name__ == "NoneItem" and type(val).__module__ == "luqum.tree":
             # the NONE_ITEM singleton: one heap object per run, the model's constant `noneItem`
             if id(val) not in self.singletons:
@@ -872,6 +937,30 @@ class Interp:
             cur = self.eval(self.as_load(s.target), frame)
             v = self.eval(s.value, frame)
             self.assign(s.target, self.binop(s.op, cur, v), frame)
+        elif isinstance(s, ast.If) and getattr(self, "merge_mode", 0):
+            cond = self.cond_lean(self.eval(s.test, frame))
+            if isinstance(cond, bool):
+                self.exec_block(s.body if cond else s.orelse, frame)
+            else:
+                # per-element decision inside a loop over a list of unknown length: only `obj.attr = value` in the
+                # branch, turned into `obj.attr = if cond then value else obj.attr`
+                if s.orelse:
+                    raise Untranslatable("if / else inside a loop over a list of unknown length")
+                for st in s.body:
+                    if not (isinstance(st, ast.Assign) and len(st.targets) == 1 and
+                            isinstance(st.targets[0], ast.Attribute)):
+                        raise Untranslatable("a conditional statement other than an attribute assignment inside a "
+                                             "loop over a list of unknown length")
+                    tgt = st.targets[0]
+                    o = self.eval(tgt.value, frame)
+                    if not isinstance(o, Obj):
+                        raise Untranslatable("conditional assignment on %r" % (o,))
+                    old = self.getattr_(o, tgt.attr, frame)
+                    new = self.eval(st.value, frame)
+                    if not isinstance(old, (str, SStr)) or not isinstance(new, (str, SStr)):
+                        raise Untranslatable("conditional assignment of a non string")
+                    o.attrs[tgt.attr] = SStr.var("(if %s then %s else %s)" % (cond, str_lean(new), str_lean(old)))
+                    o.written.add(tgt.attr)
         elif isinstance(s, ast.If):
             if self.truth(self.eval(s.test, frame)):
                 self.exec_block(s.body, frame)
@@ -943,12 +1032,14 @@ class Interp:
             saved = frame.yields
             saved_locals = dict(frame.locals)
             n0 = len(self.o.trace)
+            self.merge_mode = getattr(self, "merge_mode", 0) + 1
             frame.yields = ListObj([]) if yields_in_body else saved
             try:
                 frame.locals[tname] = value
                 self.exec_block(s.body, frame)
                 out = frame.yields
             finally:
+                self.merge_mode -= 1
                 frame.yields = saved
                 frame.locals.clear()
                 frame.locals.update(saved_locals)
@@ -1092,6 +1183,32 @@ class Interp:
                 hi = self.eval(e.slice.upper, frame) if e.slice.upper else None
                 if e.slice.step is not None:
                     raise Untranslatable("slice with a step")
+                if isinstance(o, ListObj) and hi == -1 and (lo is None or (isinstance(lo, int) and lo >= 0)):
+                    # `xs[k:-1]`: the last element is made concrete first (fork on the end of a lazy segment), then the
+                    # first k
+                    self.last_lazy(o)
+                    if not o.segs:
+                        return ListObj([])
+                    body = ListObj(list(o.segs[:-1]))
+                    last = o.segs[-1]
+                    k = 0
+                    guard = 0
+                    while k < (lo or 0):
+                        guard += 1
+                        if guard > 10000:
+                            raise Untranslatable("slicing does not terminate")
+                        self.normalize_list(body)
+                        if k >= len(body.segs):
+                            o.segs = body.segs + [last]
+                            return ListObj([])
+                        kind, x = body.segs[k]
+                        if kind == "elem":
+                            k += 1
+                        else:
+                            self.list_case(x if kind == "sym" else x.src)
+                    self.normalize_list(body)
+                    o.segs = body.segs + [last]
+                    return ListObj(list(body.segs[(lo or 0):]))
                 if isinstance(o, ListObj) and hi is None and isinstance(lo, int) and lo >= 0:
                     # `xs[k:]`: the first k elements must be concrete: forks on the shape of a lazy head segment; the
                     # original list is normalised in place, so the slice shares its (lazy) segments
@@ -1131,6 +1248,11 @@ class Interp:
                     return SStr.var("(if %s = true then %s else %s)" % (i.lean(), lean_strlit(o[True]),
                                                                           lean_strlit(o[False])))
                 raise Untranslatable("symbolic dict key")
+            if isinstance(o, ListObj) and i == -1:
+                self.last_lazy(o)
+                if not o.segs:
+                    raise PyRaise(IndexError)
+                return o.segs[-1][1]
             if isinstance(o, ListObj):
                 if not isinstance(i, int) or i < 0:
                     raise Untranslatable("list index %r" % (i,))
@@ -1200,10 +1322,18 @@ class Interp:
                         return v
                     v = self.eval(nxt, frame)
             return v
+        if isinstance(e, ast.UnaryOp) and isinstance(e.op, ast.USub):
+            v = self.eval(e.operand, frame)
+            if isinstance(v, int) and not isinstance(v, bool):
+                return -v
+            raise Untranslatable("unary minus on %r" % (v,))
         if isinstance(e, ast.UnaryOp) and isinstance(e.op, ast.Not):
             v = self.eval(e.operand, frame)
             if isinstance(v, SBool):
                 return SBool("(!%s)" % v.lean())
+            if getattr(self, "merge_mode", 0):
+                c = self.cond_lean(v)
+                return (not c) if isinstance(c, bool) else ("notcond", "(¬ %s)" % c)
             return not self.truth(v)
         if isinstance(e, ast.Compare):
             if len(e.ops) != 1:
@@ -1510,6 +1640,8 @@ def build_tree(paths, depth, indent):
         return "(if %s = [] then %s\n%s  else %s)" % (desc[1], groups[1], pad, groups[0])
     if kind == "bool":
         return "(if %s = true then %s\n%s  else %s)" % (desc[1], groups[0], pad, groups[1])
+    if kind == "listback":
+        return "(match (%s).getLast? with\n%s  | some %s => %s\n%s  | none => %s)" % (desc[1], pad, desc[2], groups[0], pad, groups[1])
     if kind == "listcase":
         return "(match %s with\n%s  | %s :: %s => %s\n%s  | [] => %s)" % (desc[1], pad, desc[2], desc[3], groups[0], pad, groups[1])
     if kind == "isinstance":
@@ -2093,4 +2225,49 @@ def translate_visits(T, V, U):
                     return emit_raise(e)
                 return "Except.ok %s" % emit_items(it, res)
             add("resolve_%s_%s" % (tname, cname), lambda holder=holder: holder["p"], run)
+    # AutoHeadTail: blanks around operands, after NOT, around TO
+    import luqum.auto_head_tail as A
+    for meth, cnames in (("visit_base_operation", ["AndOperation", "OrOperation", "BoolOperation"]),
+                         ("visit_unknown_operation", ["UnknownOperation"]), ("visit_not", ["Not"]),
+                         ("visit_range", ["Range"])):
+        for cname in cnames:
+            holder = {}
+
+            def run(oracle, meth=meth, cname=cname, holder=holder):
+                it = Interp(oracle)
+                node, params = class_inputs(T, cname)
+                holder["p"] = params
+                me = Obj(A.AutoHeadTail, lean="@self")
+                me.attrs["track_parents"] = False
+                me.attrs["track_new_parents"] = False
+                me.attrs["visit_iter"] = ("rechook", "visit_iter", me)
+                it.rec_hooks["visit_iter"] = _rec_visit
+                f = it.getattr_(me, meth, None)
+                try:
+                    res = it.call(f, [node, {}], {}, None)
+                except PyRaise as e:
+                    return emit_raise(e)
+                return "Except.ok %s" % emit_items(it, res)
+            add("aht_%s" % cname, lambda holder=holder: holder["p"], run)
+    # OpenRangeTransformer without merging: comparisons become ranges, AND nodes are copied
+    for meth, cname in (("visit_from", "From"), ("visit_to", "To"), ("visit_and_operation", "AndOperation")):
+        holder = {}
+
+        def run(oracle, meth=meth, cname=cname, holder=holder):
+            it = Interp(oracle)
+            node, params = class_inputs(T, cname)
+            holder["p"] = params + ["(addHead : Str)"]
+            me = Obj(U.OpenRangeTransformer, lean="@self")
+            init = U.OpenRangeTransformer.__dict__["__init__"]
+            it.call_function(init, [me], {"merge_ranges": False, "add_head": SStr.var("addHead")},
+                             owner=U.OpenRangeTransformer, self_obj=me)
+            me.attrs["visit_iter"] = ("rechook", "visit_iter", me)
+            it.rec_hooks["visit_iter"] = _rec_visit
+            f = it.getattr_(me, meth, None)
+            try:
+                res = it.call(f, [node, {"parents": ListObj([("sym", "ps")])}], {}, None)
+            except PyRaise as e:
+                return emit_raise(e)
+            return "Except.ok %s" % emit_items(it, res)
+        add("openrange_%s" % cname, lambda holder=holder: holder["p"], run)
     return out
